@@ -18,7 +18,7 @@
     [string(b)] and returned as they are).
 
     Definitions only (proofs: ValueProofs.v), all evaluable by vm_compute. *)
-From Gnmi Require Export Base.Prelude.
+From Gnmi Require Export Base.Prelude Value.Utf8.
 Open Scope N_scope.
 
 (** * IEEE-754 bit patterns *)
@@ -62,49 +62,7 @@ Definition widen32 (b : N) : N :=
       s + N.shiftl (k + 874) 52 + N.shiftl (m - 2 ^ k) (52 - k)   (* k - 149 + 1023 *)
   else s + N.shiftl (e + 896) 52 + N.shiftl m 29. (* e - 127 + 1023 *)
 
-(** * UTF-8 validity (unicode/utf8.ValidString) over bytes *)
-
-Definition byte_of (c : ascii) : N := N_of_ascii c.
-
-Fixpoint bytes_of (s : string) : list N :=
-  match s with
-  | EmptyString => []
-  | String c r => byte_of c :: bytes_of r
-  end.
-
-Definition in_range (lo hi b : N) : bool := (lo <=? b) && (b <=? hi).
-Definition cont (b : N) : bool := in_range 128 191 b.
-
-Fixpoint utf8_valid_bytes (l : list N) : bool :=
-  match l with
-  | [] => true
-  | b :: r =>
-      if b <? 128 then utf8_valid_bytes r
-      else if in_range 194 223 b then
-        match r with
-        | c1 :: r1 => cont c1 && utf8_valid_bytes r1
-        | _ => false
-        end
-      else if in_range 224 239 b then
-        match r with
-        | c1 :: c2 :: r2 =>
-            (if b =? 224 then in_range 160 191 c1
-             else if b =? 237 then in_range 128 159 c1
-             else cont c1) && cont c2 && utf8_valid_bytes r2
-        | _ => false
-        end
-      else if in_range 240 244 b then
-        match r with
-        | c1 :: c2 :: c3 :: r3 =>
-            (if b =? 240 then in_range 144 191 c1
-             else if b =? 244 then in_range 128 143 c1
-             else cont c1) && cont c2 && cont c3 && utf8_valid_bytes r3
-        | _ => false
-        end
-      else false
-  end.
-
-Definition utf8_valid (s : string) : bool := utf8_valid_bytes (bytes_of s).
+(** UTF-8 validity (unicode/utf8.ValidString): [utf8_valid] of Value/Utf8.v *)
 
 (** * TypedValue *)
 
